@@ -69,7 +69,7 @@ def what_fn(ev, clause):
     if ev['ev'] == 'plan':
         return '%s: contigs with records %s (small: %s), plan %s' % (clause, ev['need'], ev.get('small'), ev['jobs'])
     return '%s: %s %s threads=%s no_rejects=%s layout=%s: %d primary input records, %d output records, raised=%r' % (
-        clause, ev['method'], ev['mode'], ev['threads'], ev['no_rejects'], json.dumps(ev['layout']),
+        clause, ev['method'], ev['mode'], ev['threads'], ev['no_rejects'], json.dumps(ev['layout'])[:600] + (' history=' + ev['history'] if ev.get('history') else ''),
         sum(1 for r in ev['in'] if not r['sec']), len(ev['out']), ev['raised'])
 
 
